@@ -1,4 +1,5 @@
 import FluteModel.Lemmas.BencPsi
+import FluteModel.Lemmas.BencNoPanic
 /-
   The glue `SenderSession::run` / `FileDesc` / `Fdt::transfer_done` for one object (buffer source, non-empty):
   the encoder a session holds was created with `closabled_object = is_last_transfer` and is a genuine run, so the
@@ -20,17 +21,23 @@ structure SGood (c : Bytes) (aL aS nL n : Nat) (x : Session) : Prop where
   accepts : Accepts x.P c aL aS nL n
   symLe : SymLe x.P.codec
   enc : ∀ e, x.enc = some e → ∃ tr, Run x.P c aL aS nL n x.isLastTransfer tr e
+  /-- while a transfer runs the object is out of the queue -/
+  nq : x.enc.isSome = true → x.queued = false
 
 variable {c : Bytes} {aL aS nL n : Nat}
 
 theorem sgood_of_eq {x z : Session} (hg : SGood c aL aS nL n x) (h1 : z.src = .buffer c) (h2 : z.P = x.P)
-    (h3 : ∀ e, z.enc = some e → ∃ tr, Run z.P c aL aS nL n z.isLastTransfer tr e) : SGood c aL aS nL n z :=
+    (h3 : ∀ e, z.enc = some e → ∃ tr, Run z.P c aL aS nL n z.isLastTransfer tr e)
+    (h4 : z.enc.isSome = true → z.queued = false) : SGood c aL aS nL n z :=
   ⟨h1, by rw [h2]; exact hg.notLegacy, by rw [h2]; exact hg.e_pos, by rw [h2]; exact hg.b_pos,
     by rw [h2]; exact hg.len_eq, hg.l_pos, by rw [h2]; exact hg.window_pos, by rw [h2]; exact hg.part,
-    by rw [h2]; exact hg.accepts, by rw [h2]; exact hg.symLe, h3⟩
+    by rw [h2]; exact hg.accepts, by rw [h2]; exact hg.symLe, h3, h4⟩
 
 theorem start_fields (x : Session) : x.start.P = x.P ∧ x.start.src = x.src := by
   unfold Session.start; simp only; split <;> exact ⟨rfl, rfl⟩
+
+theorem start_queued (x : Session) : x.start.queued = false := by
+  unfold Session.start; simp only; split <;> rfl
 
 /-- `get_next` keeps the session good: a new encoder is a fresh genuine run with `closabled_object = is_last_transfer` -/
 theorem getNext_good {x y : Session} (hg : SGood c aL aS nL n x) (h : x.getNext = .ok y) : SGood c aL aS nL n y := by
@@ -49,7 +56,7 @@ theorem getNext_good {x y : Session} (hg : SGood c aL aS nL n x) (h : x.getNext 
         subst h
         obtain ⟨hP, hsrc⟩ := start_fields x
         have hsrc' : x.start.src = .buffer c := by rw [hsrc]; exact hg.src
-        refine sgood_of_eq hg hsrc' hP ?_
+        refine sgood_of_eq hg hsrc' hP ?_ (fun _ => start_queued x)
         intro e2 he2
         simp only [Option.some.injEq] at he2
         subst he2
@@ -62,53 +69,75 @@ theorem getNext_good {x y : Session} (hg : SGood c aL aS nL n x) (h : x.getNext 
     · simp only [hq, Bool.false_eq_true, if_false] at h
       cases h; exact hg
 
-/-- what `Sender::read` returns for the object: every packet comes from a genuine run of an encoder created with
-    `closabled_object = is_last_transfer`; a packet carrying B while the object is still in the FDT is the last packet of
-    the last transfer (`is_last_transfer`, nothing left to cut, every open block drained) -/
+/-- the object's sending is over: no transfer runs and none is queued; or the last packet of the LAST transfer (or of a
+    transfer of a removed object) has been returned and the drained encoder is only waiting to be released; or the single
+    forced-stop packet of a removed object has been returned (encoder stopped) -/
+def Finished (x : Session) : Prop :=
+  x.queued = false ∧
+  (x.enc = none ∨
+   (∃ e, x.enc = some e ∧ e.readEnd = true ∧ (∀ b, b ∈ e.blocks → b.isEmpty = true) ∧ 0 < e.nbPkt ∧
+     (x.added = false ∨ (x.carousel = false ∧ x.maxtc = x.count + 1))) ∨
+   (∃ e, x.enc = some e ∧ e.stopped = true ∧ x.added = false))
+
+/-- what `Sender::read` does to a good session, whatever it returns (a packet, `None` - also the `None` that ends a
+    transfer: `release`, count + 1, requeue or expiry - never `hang`, `panic` only from `block_partitioning` overflow):
+    the session stays good; a returned packet carrying B while the object is still in the FDT is the last packet of the
+    last transfer (`is_last_transfer`, nothing left to cut, every open block drained) -/
 theorem runLoop_spec : ∀ (fuel : Nat) (x : Session), SGood c aL aS nL n x →
-    ∀ p x', Session.runLoop fuel x = (.pkt p, x') →
+    ∀ o x', Session.runLoop fuel x = (o, x') →
       SGood c aL aS nL n x' ∧
-      (p.closeObject = true → x'.added = true →
-        x'.isLastTransfer = true ∧ ∃ e', x'.enc = some e' ∧ e'.sbn = n ∧ e'.readEnd = true ∧
-          ∀ b, b ∈ e'.blocks → b.isEmpty = true) := by
+      (∀ p, o = .pkt p → p.closeObject = true → x'.added = true →
+        x'.isLastTransfer = true ∧ ∃ e', x'.enc = some e' ∧ e'.sbn = n ∧ e'.readEnd = true ∧ 0 < e'.nbPkt ∧
+          ∀ b, b ∈ e'.blocks → b.isEmpty = true) ∧
+      (∀ p, o = .pkt p → p.closeObject = true → Finished x') := by
   intro fuel
   induction fuel with
-  | zero => intro x _ p x' h; simp [Session.runLoop] at h
+  | zero =>
+    intro x hg o x' h
+    simp only [Session.runLoop, Prod.mk.injEq] at h
+    obtain ⟨rfl, rfl⟩ := h
+    exact ⟨hg, (fun p hp => by cases hp), (fun p hp => by cases hp)⟩
   | succ fuel ih =>
-    intro x hg p x' h
+    intro x hg o x' h
     unfold Session.runLoop at h
     cases hgn : x.getNext with
-    | error w => rw [hgn] at h; cases h
+    | error w =>
+      rw [hgn] at h
+      simp only [Prod.mk.injEq] at h
+      obtain ⟨rfl, rfl⟩ := h
+      exact ⟨hg, (fun p hp => by cases hp), (fun p hp => by cases hp)⟩
     | ok y =>
       rw [hgn] at h
       simp only at h
       have hy := getNext_good hg hgn
       cases henc : y.enc with
-      | none => rw [henc] at h; cases h
+      | none =>
+        rw [henc] at h
+        simp only [Prod.mk.injEq] at h
+        obtain ⟨rfl, rfl⟩ := h
+        exact ⟨hy, (fun p hp => by cases hp), (fun p hp => by cases hp)⟩
       | some e =>
         rw [henc] at h
         simp only at h
         obtain ⟨tr, hrun⟩ := hy.enc e henc
         obtain ⟨hI, hT, hcl, _⟩ := hrun.inv
-        generalize hrd : BlockEnc.read y.P e y.mustStop = r at h
-        obtain ⟨o, e'⟩ := r
-        cases o with
-        | panic => cases h
-        | hang => cases h
+        have hnp := Flute.BencNoPanic.run_no_panic hrun y.mustStop
+        have hnh := Flute.BencTerm.read_no_hang hrun.setup hrun.accepts y.mustStop hI hT
+        generalize hrd : BlockEnc.read y.P e y.mustStop = r at h hnp hnh
+        obtain ⟨o1, e'⟩ := r
+        cases o1 with
+        | panic => exact absurd rfl hnp
+        | hang => exact absurd rfl hnh
         | pkt q =>
-          simp only [Prod.mk.injEq, Out.pkt.injEq] at h
+          simp only [Prod.mk.injEq] at h
           obtain ⟨rfl, rfl⟩ := h
           have hrun' : Run y.P c aL aS nL n y.isLastTransfer (tr ++ [(y.mustStop, q)]) e' := by
             obtain ⟨s0, hnew, hr⟩ := hrun.reads
             exact { hrun with reads := ⟨s0, hnew, Reads.snoc hr hrd⟩ }
-          refine ⟨sgood_of_eq hy hy.src rfl ?_, ?_⟩
-          · intro e2 he2
-            simp only [Option.some.injEq] at he2
-            subst he2
-            exact ⟨_, hrun'⟩
-          · intro hB hadd
-            have hadd' : y.added = true := hadd
-            have hf : y.mustStop = false := by simp [Session.mustStop, hadd']
+          have hnq : y.queued = false := hy.nq (by rw [henc]; rfl)
+          have hflag : q.closeObject = true → y.mustStop = true ∨
+              (y.isLastTransfer = true ∧ e'.sbn = n ∧ e'.readEnd = true ∧ 0 < e'.nbPkt ∧ ∀ b, b ∈ e'.blocks → b.isEmpty = true) := by
+            intro hB
             have hst : e.stopped = false := by
               cases hs : e.stopped with
               | false => rfl
@@ -119,12 +148,44 @@ theorem runLoop_spec : ∀ (fuel : Nat) (x : Session), SGood c aL aS nL n x →
             rw [hrd] at hpost
             obtain ⟨_, _, em⟩ := hpost
             rcases em.flag hB with hff | ⟨hc, hs, hdr⟩
-            · rw [hf] at hff; cases hff
+            · exact Or.inl hff
             · obtain ⟨h1, h2⟩ := all_cut_of_srcSent hrun' hy.symLe hs
-              refine ⟨?_, e', rfl, h1, h2, hdr⟩
-              show y.isLastTransfer = true
+              right
+              refine ⟨?_, h1, h2, by rw [em.nbPkt]; exact Nat.succ_pos _, hdr⟩
               rw [← hcl]
-              rw [hf] at hc; exact hc
+              cases hm : y.mustStop <;> rw [hm] at hc <;> exact hc
+          refine ⟨sgood_of_eq hy hy.src rfl ?_ (fun _ => hnq), ?_, ?_⟩
+          · intro e2 he2
+            simp only [Option.some.injEq] at he2
+            subst he2
+            exact ⟨_, hrun'⟩
+          · intro p hp hB hadd
+            cases hp
+            have hadd' : y.added = true := hadd
+            have hf : y.mustStop = false := by simp [Session.mustStop, hadd']
+            rcases hflag hB with h1 | ⟨h1, h2, h3, h4, h5⟩
+            · rw [hf] at h1; cases h1
+            · exact ⟨h1, e', rfl, h2, h3, h4, h5⟩
+          · intro p hp hB
+            cases hp
+            refine ⟨hnq, ?_⟩
+            rcases hflag hB with h1 | ⟨h1, h2, h3, h4, h5⟩
+            · -- forced stop: the encoder is stopped, the object is out of the FDT
+              right; right
+              have hstp := (hrun'.inv).2.2.2
+              have hadd : y.added = false := by
+                unfold Session.mustStop at h1
+                cases ha : y.added <;> simp [ha] at h1 ⊢
+              refine ⟨e', rfl, hstp.mpr ⟨(y.mustStop, q), by simp, h1⟩, hadd⟩
+            · right; left
+              refine ⟨e', rfl, h3, h5, h4, ?_⟩
+              cases ha : y.added with
+              | false => exact Or.inl rfl
+              | true =>
+                right
+                unfold Session.isLastTransfer at h1
+                cases hc : y.carousel <;> simp [hc] at h1
+                exact ⟨rfl, h1⟩
         | none =>
           simp only at h
           have hsrc : e'.src = .buffer c := by
@@ -135,13 +196,192 @@ theorem runLoop_spec : ∀ (fuel : Nat) (x : Session), SGood c aL aS nL n x →
               have := r2 hs'
               rw [hrd] at this
               exact this.1.src
-          refine ih _ ?_ p x' h
+          refine ih _ ?_ o x' h
           unfold Session.release
           simp only
           split
-          · exact sgood_of_eq hy hsrc rfl (by intro e2 he2; cases he2)
+          · exact sgood_of_eq hy hsrc rfl (by intro e2 he2; cases he2) (by intro h; cases h)
           · split
-            · exact sgood_of_eq hy hsrc rfl (by intro e2 he2; cases he2)
-            · exact sgood_of_eq hy hsrc rfl (by intro e2 he2; cases he2)
+            · exact sgood_of_eq hy hsrc rfl (by intro e2 he2; cases he2) (by intro h; cases h)
+            · exact sgood_of_eq hy hsrc rfl (by intro e2 he2; cases he2) (by intro h; cases h)
+
+/-! ### whole histories: any sequence of `Sender::read`, `remove_object`, clock advances -/
+
+inductive Op where
+  | read
+  | remove
+  | tick (secs : Nat)
+
+/-- one API call; for `read` also what it returned -/
+def sstep (x : Session) : Op → Option Out × Session
+  | .read => (some x.read.1, x.read.2)
+  | .remove => (none, x.remove.2)
+  | .tick secs => (none, x.tick secs)
+
+/-- the session after a history, and everything `read` returned, in order -/
+def srun : List Op → Session → List Out × Session
+  | [], x => ([], x)
+  | op :: ops, x =>
+    match (sstep x op).1 with
+    | some o => (o :: (srun ops (sstep x op).2).1, (srun ops (sstep x op).2).2)
+    | none => srun ops (sstep x op).2
+
+theorem step_good {x : Session} (hg : SGood c aL aS nL n x) (op : Op) : SGood c aL aS nL n (sstep x op).2 := by
+  cases op with
+  | read => exact (runLoop_spec 4 x hg _ _ rfl).1
+  | remove =>
+    unfold sstep Session.remove
+    simp only
+    split
+    · exact sgood_of_eq hg hg.src rfl hg.enc (fun _ => rfl)
+    · exact hg
+  | tick secs => exact sgood_of_eq hg hg.src rfl hg.enc hg.nq
+
+/-- every state of every history from a good session is good -/
+theorem run_good : ∀ (ops : List Op) (x : Session), SGood c aL aS nL n x → SGood c aL aS nL n (srun ops x).2 := by
+  intro ops
+  induction ops with
+  | nil => intro x h; exact h
+  | cons op ops ih =>
+    intro x h
+    unfold srun
+    split
+    · exact ih _ (step_good h op)
+    · exact ih _ (step_good h op)
+
+/-- a freshly added object: no encoder yet -/
+theorem sgood_init (x : Session) (hsrc : x.src = .buffer c) (hnl : x.P.legacy = false) (he : 0 < x.P.e) (hb : 0 < x.P.b)
+    (hlen : x.P.len = c.length) (hl : 0 < c.length) (hw : 1 ≤ x.P.window)
+    (hq : Partition.blockPartitioning x.P.b x.P.len x.P.e = .ok (aL, aS, nL, n))
+    (hA : Accepts x.P c aL aS nL n) (hle : SymLe x.P.codec) (henc : x.enc = none) : SGood c aL aS nL n x :=
+  ⟨hsrc, hnl, he, hb, hlen, hl, hw, hq, hA, hle, (by intro e h; rw [henc] at h; cases h), (by intro h; rw [henc] at h; cases h)⟩
+
+/-! ### the final transfer is final -/
+
+/-- an encoder with nothing left to cut whose open blocks are all drained returns `None` (forced or not) -/
+theorem readLoop_none_of_drained (P : Params) (force : Bool) :
+    ∀ (fuel : Nat) (s : Enc), s.readEnd = true → (∀ b, b ∈ s.blocks → b.isEmpty = true) → 0 < s.nbPkt →
+      s.blocks.length < fuel → (readLoop P force fuel s).1 = .none := by
+  intro fuel
+  induction fuel with
+  | zero => intro s _ _ _ h; omega
+  | succ fuel ih =>
+    intro s hre hdr hnb hf
+    unfold readLoop
+    have hrw : readWindow P s = s := by
+      unfold readWindow
+      cases P.window with
+      | zero => rfl
+      | succ m => simp [readWindowAux, hre]
+    simp only [hrw]
+    by_cases hemp : s.blocks.isEmpty = true
+    · simp only [hemp, if_true]
+      have : ¬ s.nbPkt = 0 := by omega
+      simp [this]
+    · simp only [hemp, Bool.false_eq_true, if_false]
+      have hne : s.blocks ≠ [] := fun h => hemp (List.isEmpty_iff.mpr h)
+      have hlen : 0 < s.blocks.length := List.length_pos_iff.mpr hne
+      generalize hidx' : (if s.idx ≥ s.blocks.length then 0 else s.idx) = idx
+      have hidxlt : idx < s.blocks.length := by rw [← hidx']; split <;> omega
+      have hget : s.blocks[idx]? = some s.blocks[idx] := List.getElem?_eq_getElem hidxlt
+      generalize s.blocks[idx] = blk at hget
+      rw [hget]
+      simp only
+      have hblk : blk ∈ s.blocks := List.mem_iff_getElem?.mpr ⟨idx, hget⟩
+      have hd : blk.readIndex = blk.shards.length := by have := hdr blk hblk; simpa [Block.isEmpty] using this
+      have hsh : blk.shards[blk.readIndex]? = none := List.getElem?_eq_none_iff.mpr (by omega)
+      simp only [Block.read, hsh]
+      apply ih { s with idx := idx, blocks := s.blocks.eraseIdx idx } hre (fun b hb => hdr b (List.mem_of_mem_eraseIdx hb)) hnb
+      show (s.blocks.eraseIdx idx).length < fuel
+      rw [List.length_eraseIdx]; simp only [hidxlt, if_true]; omega
+
+theorem read_none_of_drained (P : Params) (s : Enc) (f : Bool) (hre : s.readEnd = true)
+    (hdr : ∀ b, b ∈ s.blocks → b.isEmpty = true) (hnb : 0 < s.nbPkt) : (BlockEnc.read P s f).1 = .none := by
+  unfold BlockEnc.read
+  split
+  · rfl
+  · cases f with
+    | true => simp only [if_true]; exact readLoop_none_of_drained P true _ _ hre hdr hnb (by unfold readFuel; simp; omega)
+    | false => simp only [Bool.false_eq_true, if_false]; exact readLoop_none_of_drained P false _ _ hre hdr hnb (by unfold readFuel; omega)
+
+/-- once finished, `Sender::read` returns `None` and the session stays finished -/
+theorem finished_read {x : Session} (h : Finished x) : x.read.1 = .none ∧ Finished x.read.2 := by
+  obtain ⟨hq, h⟩ := h
+  have dead : ∀ (y : Session) fuel, y.queued = false → y.enc = none →
+      Session.runLoop (fuel + 1) y = (.none, y) := by
+    intro y fuel h1 h2
+    unfold Session.runLoop Session.getNext
+    simp [h1, h2]
+  have hrel : ∀ (e' : Enc), (x.added = false ∨ (x.carousel = false ∧ x.maxtc = x.count + 1)) →
+      (x.release e').queued = false ∧ (x.release e').enc = none := by
+    intro e' hlast
+    unfold Session.release
+    simp only
+    rcases hlast with ha | ⟨hc, hm⟩
+    · simp [ha, hq]
+    · by_cases ha : x.added = true
+      · simp [Session.isExpired, ha, hc, hm, hq]
+      · have ha' : x.added = false := by simpa using ha
+        simp [ha', hq]
+  have fin : ∀ (e : Enc), x.enc = some e → (BlockEnc.read x.P e x.mustStop).1 = .none →
+      (x.added = false ∨ (x.carousel = false ∧ x.maxtc = x.count + 1)) →
+      x.read.1 = .none ∧ Finished x.read.2 := by
+    intro e he hnone hlast
+    unfold Session.read Session.runLoop
+    have hgn : x.getNext = .ok x := by unfold Session.getNext; simp [he]
+    rw [hgn]
+    simp only [he]
+    generalize BlockEnc.read x.P e x.mustStop = r at hnone
+    obtain ⟨o, e'⟩ := r
+    simp only at hnone
+    subst hnone
+    simp only
+    have := hrel e' hlast
+    rw [dead _ 2 this.1 this.2]
+    exact ⟨rfl, this.1, Or.inl this.2⟩
+  rcases h with h | ⟨e, he, hre, hdr, hnb, hlast⟩ | ⟨e, he, hst, hadd⟩
+  · unfold Session.read
+    rw [dead x 3 hq h]
+    exact ⟨rfl, hq, Or.inl h⟩
+  · exact fin e he (read_none_of_drained x.P e x.mustStop hre hdr hnb) hlast
+  · exact fin e he (by unfold BlockEnc.read; simp [hst]) (Or.inl hadd)
+
+theorem finished_step {x : Session} (h : Finished x) (op : Op) : Finished (sstep x op).2 := by
+  cases op with
+  | read => exact (finished_read h).2
+  | remove =>
+    obtain ⟨hq, h⟩ := h
+    unfold sstep Session.remove
+    simp only
+    split
+    · refine ⟨rfl, ?_⟩
+      rcases h with h | ⟨e, he, hre, hdr, hnb, _⟩ | ⟨e, he, hst, _⟩
+      · exact Or.inl h
+      · exact Or.inr (Or.inl ⟨e, he, hre, hdr, hnb, Or.inl rfl⟩)
+      · exact Or.inr (Or.inr ⟨e, he, hst, rfl⟩)
+    · exact ⟨hq, h⟩
+  | tick secs => exact h
+
+/-- **the final transfer is final**: after the B packet of a transfer of an object still in the FDT, whatever the
+    application does next (any history of `read`, `remove_object`, clock advances), every `read` returns `None` -/
+theorem nothing_after_finished : ∀ (ops : List Op) (x : Session), Finished x → ∀ o, o ∈ (srun ops x).1 → o = .none := by
+  intro ops
+  induction ops with
+  | nil => intro x _ o ho; cases ho
+  | cons op ops ih =>
+    intro x h o ho
+    unfold srun at ho
+    cases op with
+    | read =>
+      simp only [sstep] at ho
+      rcases List.mem_cons.mp ho with h1 | h1
+      · rw [h1]; exact (finished_read h).1
+      · exact ih _ (finished_read h).2 o h1
+    | remove =>
+      simp only [sstep] at ho
+      exact ih _ (finished_step h .remove) o ho
+    | tick secs =>
+      simp only [sstep] at ho
+      exact ih _ (finished_step h (.tick secs)) o ho
 
 end Flute.BencSession
